@@ -4,6 +4,7 @@ digest(x)  : SHA-1 over a canonical, type-tagged serialisation (arrays: dtype/sh
 enc / dec  : lossless JSON encoding of the values that appear in op records.
 arrays_of  : every ndarray reachable from a value (for aliasing checks).
 """
+import functools
 import hashlib
 import struct
 import types
@@ -78,6 +79,16 @@ def _feed(h, x, depth=0):
         h.update(type(x).__name__.encode())
     elif isinstance(x, range):
         h.update(("R%r" % (x,)).encode())
+    elif isinstance(x, functools.partial):
+        h.update(b"P(")
+        _feed(h, x.func, depth + 1)
+        _feed(h, list(x.args), depth + 1)
+        _feed(h, dict(x.keywords), depth + 1)
+        h.update(b")")
+    elif type(x).__module__.startswith("pandas") and hasattr(x, "to_numpy"):
+        h.update(b"PD")
+        h.update(type(x).__name__.encode())
+        _feed(h, np.asarray(x), depth + 1)
     elif isinstance(x, (types.FunctionType, types.BuiltinFunctionType, np.ufunc, types.MethodType)):
         h.update(b"F")
         h.update(getattr(x, "__qualname__", getattr(x, "__name__", "fn")).encode())
@@ -146,6 +157,15 @@ def arrays_of(x, out=None, depth=0, seen=None):
         for k, v in x.items():
             arrays_of(k, out, depth + 1, seen)
             arrays_of(v, out, depth + 1, seen)
+    elif isinstance(x, functools.partial):
+        seen.add(id(x))
+        arrays_of(list(x.args), out, depth + 1, seen)
+        arrays_of(dict(x.keywords), out, depth + 1, seen)
+    elif type(x).__module__.startswith("pandas") and hasattr(x, "to_numpy"):
+        try:
+            out.append(np.asarray(x))          # a view of the frame's buffer wherever pandas can give one
+        except Exception:
+            pass
     elif isinstance(x, types.MethodType):
         seen.add(id(x))
         arrays_of(getattr(x, "__self__", None), out, depth + 1, seen)
@@ -282,7 +302,7 @@ def plain(x, depth=0):
         return ("exc", type(x).__name__)
     if isinstance(x, range):
         return ("range", x.start, x.stop, x.step)
-    if isinstance(x, (types.FunctionType, types.BuiltinFunctionType, np.ufunc, types.MethodType)):
+    if isinstance(x, (types.FunctionType, types.BuiltinFunctionType, np.ufunc, types.MethodType, functools.partial)):
         return ("fn", digest(x))
     if hasattr(x, "__dict__"):
         return ("obj", type(x).__name__, sorted((k, plain(v, depth + 1)) for k, v in vars(x).items()))
